@@ -203,6 +203,20 @@ fn write_cases(ctx: &mut Ctx) {
         let v = gen_vector(&mut rng, wwidth, wlen, alpha, skew);
         emit(ctx, &mut k, &WaveletMatrix::from(v.clone()), format!("type wm\nvalues {}\n", list64(&v)));
         if !v.is_empty() { emit(ctx, &mut k, &WMCore::from(v.clone()), format!("type wmcore\nvalues {}\n", list64(&v))); }
+        // The same kinds as the body of a present optional structure (its first element is the size of the body), incl.
+        // wavelet matrices whose levels differ in size (thousands of items, skewed: the supports of a level depend on its bits).
+        if i % 3 == 0 {
+            emit(ctx, &mut k, &Some(WaveletMatrix::from(v.clone())), format!("type wm\noption 1\nvalues {}\n", list64(&v)));
+            if !v.is_empty() { emit(ctx, &mut k, &Some(WMCore::from(v.clone())), format!("type wmcore\noption 1\nvalues {}\n", list64(&v))); }
+            let big: Vec<u64> = (0..(2000 + rng.below(3500))).map(|j| if j == 777 { 4 } else if rng.chance(1, 50) { 3 } else { rng.below(3) as u64 }).collect();
+            emit(ctx, &mut k, &Some(WaveletMatrix::from(big.clone())), format!("type wm\noption 1\nvalues {}\n", list64(&big)));
+            emit(ctx, &mut k, &Some(WMCore::from(big.clone())), format!("type wmcore\noption 1\nvalues {}\n", list64(&big)));
+            if let Ok(sv) = mk::sparse_set(n, &m.ones) { emit(ctx, &mut k, &Some(sv), format!("type sparse\noption 1\nn {}\nones {}\n", n, list(&m.ones))); }
+            if let Ok(rv) = mk::rl_runs(n, &m.runs()) { let flat: Vec<usize> = m.runs().iter().flat_map(|r| [r.0, r.1]).collect(); emit(ctx, &mut k, &Some(rv), format!("type rl\noption 1\nn {}\nruns {}\n", n, list(&flat))); }
+            let mut obv = mk::bv_set_bit(&bits);
+            mk::enable_all(&mut obv);
+            emit(ctx, &mut k, &Some(obv), format!("type bitvector\noption 1\nn {}\nsupports 1 1 1\nones {}\n", n, list(&m.ones)));
+        }
         // Basic structures.
         let blen = rng.below(40);
         let bytes: Vec<u8> = (0..blen).map(|_| rng.next_u64() as u8 | 0x80).collect();
